@@ -26,7 +26,8 @@ from checks import concshared as cs
 
 PID = "C06"
 OBLIGATION_FILES = ["Conc/SkelObligationsC06.v"]
-OBLIGATIONS = ["skeleton_conforms", "closable_senders_covered", "lock_sections_ranked", "attribution_closed"]
+OBLIGATIONS = ["skeleton_conforms", "closable_senders_covered", "lock_sections_ranked", "attribution_closed",
+               "invocation_drops_cancel_timer"]
 
 WHAT = {
     "panic:send-on-closed-channel@router.(*dealer).syncCall.func1":
@@ -93,6 +94,9 @@ def main(tier, replay):
     targeted = None
     if broken:
         focus = cs.focus_functions(rep, ["close", "onLeave", "handleSession", "syncCall"]) if rep.get("ok") else []
+        for fn, _ in rep.get("bad_invocation_drops") or []:
+            focus.append(fn.split(".")[-1])
+            focus.append("timerCancel")
         common.info("C06: %s -> targeted search around %s" % ("; ".join(broken)[:300], ",".join(focus)))
         targeted, tlog = cs.drive(PID, "thorough" if quick else tier, 40 if quick else 480,
                                   focus=focus, tag="-targeted", corpus=False, shrink=not quick)
@@ -126,7 +130,7 @@ def main(tier, replay):
     if broken and new_failures == 0:
         # the property is no longer shown, and no history outside the known findings fails
         v.violation(dict(property=PID, broken=broken,
-                         skeleton_report={k: rep.get(k) for k in ("obligations", "nonconforming", "detail")},
+                         skeleton_report={k: rep.get(k) for k in ("obligations", "nonconforming", "detail", "bad_invocation_drops")},
                          coq_failed=r["failed"][:1500],
                          searched=dict(main=_counts(summary), targeted=_counts(targeted)),
                          what="a per-run obligation of C06 or the translator tie is broken; the targeted "
